@@ -533,9 +533,12 @@ cannot parse duration string `%s'", argi->alt_inc_arg);
 				goto out;
 			}
 		} while (__strpdtdur_more_p(&st));
-		/* assign values */
+		/* assign values, the special case `0' deactivates
+		 * alternative incrementing */
 		clo.altite = st.durs;
-		clo.naltite = st.ndurs;
+		if (!__durstack_naught_p(st.durs, st.ndurs)) {
+			clo.naltite = st.ndurs;
+		}
 	}
 
 	switch (argi->nargs) {
